@@ -43,7 +43,9 @@ hs_digits = Regex(r'[0-9_]+')
 hs_quantity = (hs_decimal + hs_unit.copy().leaveWhitespace()).setParseAction(
     lambda toks: Quantity(toks[0], toks[1])
 )
-hs_number = hs_quantity | hs_decimal | Literal('INF') | Literal("-INF") | Literal("Nan")
+hs_number = hs_quantity | hs_decimal | \
+            (Literal('INF') | Literal("-INF") | Literal("NaN")).setParseAction(
+                lambda toks: [float(toks[0])])
 hs_bool = (Literal("true") | Literal("false")).setParseAction(
     lambda toks: toks[0] == "true"
 )  # Extension to accept T or F
